@@ -142,6 +142,16 @@ def check_layout(case):
             b = d[:i] >> d[i:j].bubble() >> d[j:]
             layout_checks(b, structure=b.open_bubbles())
             labels.append("bubble")
+        # a bubble around one box and some of the wires next to it, with
+        # other wires passing by on either side
+        k = cut[0] % len(d)
+        left, box, right = d.layers[k]
+        a, c = cut[1] % (len(left) + 1), cut[0] % (len(right) + 1)
+        inner = d.id(left[a:]) @ box @ d.id(right[:c])
+        b = d[:k] >> d.id(left[:a]) @ inner.bubble() @ d.id(right[c:])\
+            >> d[k + 1:]
+        layout_checks(b, structure=b.open_bubbles())
+        labels.append("partial-bubble")
     return dict(nt=padded and len(spec["layers"]) >= 3, labels=labels,
                 show=common.show(d, 200))
 
